@@ -95,6 +95,15 @@ def main():
             rc, out = sh("rsync -a --exclude .git --exclude evidence/replay --exclude 'build/.lock' /verif/ %s/" % vroot)
             assert rc == 0, out
             sh("sed -i 's#=> /repo#=> %s#' %s/tools/harness/go.mod" % (rroot, vroot))
+            # work in progress that is not committed (untracked sources) is not part of the machinery under test
+            rc, out = sh("git -C /verif ls-files --others --exclude-standard")
+            for f in out.split():
+                for ext in ("", "o", "ok", "os"):   # X.v, X.vo, X.vok, X.vos
+                    q = vroot + "/" + f + ext
+                    if f.endswith(".v") and os.path.exists(q):
+                        os.remove(q)
+                if not f.endswith(".v") and os.path.exists(vroot + "/" + f):
+                    os.remove(vroot + "/" + f)
             env = dict(ENV, VERIF_ROOT=vroot, REPO_ROOT=rroot)
             results.update(run_checks(vroot, props, env))
             for p in results:
